@@ -135,7 +135,9 @@ def gen_secret(r, cls, slen=4, exact_len=None, avoid=()):
         elif cls == "md5":
             v = "$1$" + "".join(r.choice(H64) for _ in range(slen)) + "$" + "".join(r.choice(H64) for _ in range(22))
         elif cls == "sha512":
-            v = "$6$" + "".join(r.choice(H64) for _ in range(16)) + "$" + "".join(r.choice(H64) for _ in range(86))
+            # salt field of any legal length (1-16), sometimes with an explicit rounds= field
+            rounds = r.choice(["", "", "", "rounds=%d$" % r.choice([5000, 10000, 656000, 99999999])])
+            v = "$6$" + rounds + "".join(r.choice(H64) for _ in range(r.choice([16, 16, 8, 1, 12, 15]))) + "$" + "".join(r.choice(H64) for _ in range(86))
         elif cls == "juniper9bad":
             # looks like $9$ but does not decrypt: truncated last group, foreign character, or too short
             good = j9_encode("".join(r.choice(string.ascii_letters) for _ in range(r.randint(3, 8))), r.choice(ALPHA))
